@@ -122,6 +122,7 @@ var inFlight, maxInFlight int64
 // sharedIntermediates is passed (read-only) by every goroutine as the caller's list of
 // additional intermediate certificates; it has spare capacity on purpose.
 var sharedIntermediates [][]byte
+var sharedPEM string
 
 func enter() {
 	n := atomic.AddInt64(&inFlight, 1)
@@ -342,6 +343,7 @@ func runC16(c *core.Ctx) {
 	if ca, err := gen.NewCA(gen.CertSpec{CN: "shared-extra-intermediate"}, nil); err == nil {
 		sharedIntermediates = make([][]byte, 1, 8)
 		sharedIntermediates[0] = []byte(ca.PEM)
+		sharedPEM = ca.PEM
 	}
 	actors := make([]*c16Actor, G)
 	for g := 0; g < G; g++ {
@@ -403,6 +405,17 @@ func runC16(c *core.Ctx) {
 	wg.Wait()
 	close(stopMon)
 	concTime := time.Since(t0)
+	// data every goroutine handed in read-only: the shared list of extra intermediates, including
+	// the spare capacity behind it, must be as it was (seen without the race detector, too)
+	if full := sharedIntermediates[:cap(sharedIntermediates)]; len(full) > 0 {
+		for i, e := range full {
+			if i == 0 && string(e) == sharedPEM || i > 0 && e == nil {
+				continue
+			}
+			c.Violation("a library call wrote into the caller's shared read-only list of intermediate certificates (element "+fmt.Sprint(i)+" of its backing array)", id, map[string]any{"goroutines": G, "element": i})
+			break
+		}
+	}
 	// ---- sequential pass ------------------------------------------------------------
 	censusOn = false
 	seq := make([][]opResult, G)
